@@ -2020,3 +2020,11 @@ fn display_consensus_params(params: &tendermint::consensus::Params) -> String {
             .map_or_else(unset, |height| height.to_string()),
     )
 }
+
+#[cfg(all(test, feature = "verif-ledger"))]
+#[path = "/verif/harness/sequencer/ledger.rs"]
+mod verif_ledger;
+
+#[cfg(all(test, feature = "verif-abci"))]
+#[path = "/verif/harness/sequencer/abci.rs"]
+mod verif_abci;
